@@ -29,6 +29,7 @@ structure State where
   rasterEntry : Bool := false
   uniforms : List Rat := []
   tainted : Bool := false        -- a treatment broke i = sum(mort) earlier in this run (F20)
+  soil : List Int := []          -- soil cohorts at the observed cell
 deriving Inhabited
 
 def intList? (s : String) : Option (List Int) :=
@@ -209,6 +210,52 @@ def handle (st : State) (cmd : String) (inp obsToks : List String) : State × St
     match obs? obsToks with
     | some o => finish st o "ok"
     | none => (st, "BADLINE")
+  -- SoilPool at one cell: hp.soil.init => c0,c1,..
+  | "hp.soil.init", [] =>
+    match obsToks with
+    | [c] => match intList? c with | some l => ({ st with soil := l }, "ok") | none => (st, "BADLINE")
+    | _ => (st, "BADLINE")
+  -- hp.soil.to sto pEst w u1,u2,.. => cohorts
+  | "hp.soil.to", [sto, pEst, w, us] =>
+    match parseRat? pEst, parseRat? w, (if us = "-" then some [] else ratList? us), obsToks with
+    | some pEst, some w, some us, [c] =>
+      match intList? c with
+      | some post =>
+        let exp := us.foldl (fun l u => soilDisperserTo l w (sto == "1") pEst u) st.soil
+        let st' := { st with soil := post }
+        if post.any (· < 0) then (st', "PROPFAIL C02 nonneg soil_cohorts")
+        else if sumL post - sumL st.soil > us.length || sumL post < sumL st.soil then (st', s!"PROPFAIL C04 soil_share stored={sumL post - sumL st.soil} sent={us.length}")
+        else (st', if exp == post then "ok" else s!"MISMATCH hp.soil.to model={exp}")
+      | none => (st, "BADLINE")
+    | _, _, _, _ => (st, "BADLINE")
+  -- hp.soil.from det w => ret | cohorts
+  | "hp.soil.from", [det, w] =>
+    match parseRat? w, segments obsToks with
+    | some w, [[ret], [c]] =>
+      match parseInt? ret, intList? c with
+      | some ret, some post =>
+        let pre := st.soil
+        let st' := { st with soil := post }
+        let total := sumL pre
+        let draw := subL pre post
+        if post.any (· < 0) then (st', "PROPFAIL C02 nonneg soil_cohorts")
+        else if ret < 0 then (st', "PROPFAIL C02 nonneg soil_release")
+        else if ret > total then
+          (st', if det == "0" then s!"KNOWN C02 F22 released={ret} stored={total}" else s!"PROPFAIL C02 taken_le_present soil released={ret} stored={total}")
+        else if det == "1" && ret != soilReleaseDet pre w then (st', s!"PROPFAIL C04 soil_release_det ret={ret} expected={soilReleaseDet pre w}")
+        else if !(validDrawB pre ret draw) then (st', s!"MISMATCH hp.soil.from draw-invalid draw={draw} n={ret}")
+        else (st', if soilRelease pre draw == post then "ok" else "MISMATCH hp.soil.from")
+      | _, _ => (st, "BADLINE")
+    | _, _ => (st, "BADLINE")
+  | "hp.soil.next", [] =>
+    match obsToks with
+    | [c] =>
+      match intList? c with
+      | some post =>
+        let exp := soilNext st.soil
+        ({ st with soil := post }, if exp == post then "ok" else s!"PROPFAIL C04 soil_ageing expected={exp} observed={post}")
+      | none => (st, "BADLINE")
+    | _ => (st, "BADLINE")
   | "hp.uniforms", [us] =>
     match (us.splitOn ",").mapM parseInt? with
     | some l => ({ st with uniforms := l.map fun k => mkRat k 64 }, "ok")
